@@ -145,6 +145,29 @@ def axiom_checks():
         lambda c, p: any(x >= 2 for x in c))
     run("replicate", lambda e, xs, p: seqlib.replicate(e, [SInt(z3.IntVal(9))], SInt(z3.IntVal(p))), lambda c, p: [9] * p, params=range(-1, 4))
 
+    # loops over a list of symbolic length summarised as selections (engine.summarise_selection_loop),
+    # interpreted from source, against CPython running the same source
+    loop_srcs = {
+        "loop.if-append": "def g(xs):\n    out = []\n    for x in xs:\n        if x >= 1:\n            out.append(x + 1)\n    return out",
+        "loop.continue-append": "def g(xs):\n    out = [7]\n    for x in xs:\n        if x == 0:\n            continue\n        if x != 2:\n            out.append(x)\n    return out",
+        "loop.enumerate": "def g(xs):\n    out = []\n    for i, x in enumerate(xs):\n        if x >= 1:\n            out.append(i)\n    return out",
+    }
+    for lname, src in loop_srcs.items():
+        ns = {}
+        exec(compile(src, "<selftest %s>" % lname, "exec"), ns)
+        g = ns["g"]
+        import types as _types
+        fn_ast = __import__("ast").parse(src).body[0]
+
+        def build(e, xs, p, fn_ast=fn_ast, g=g):
+            env = E.Env({"xs": xs}, dict(g.__globals__), None, "g", fn_ast)
+            try:
+                e.exec_block(fn_ast.body, env)
+            except E._Return as r:
+                return r.value
+            return None
+        run(lname, build, lambda c, p, g=g: g(list(c)))
+
     def card(e, xs, p):
         e.path.notes["card_lemmas"] = True
         a = seqlib.slist_filter(e, xs, lambda x: SBool(x.z >= 1))
@@ -171,6 +194,7 @@ def semantics_checks():
         "def f():\n    a = b = []\n    a.append(1)\n    x, (y, z) = 1, (2, 3)\n    return b, x + y + z",
         "def f():\n    n = 0\n    while n < 3:\n        n += 1\n        if n == 2:\n            break\n    else:\n        n = 99\n    return n",
         "def f():\n    return (not [], not [0], bool(''), bool('0'), 1 if [] else 2)",
+        "class A(object):\n    def __init__(self, v):\n        self.v = v\n    def m(self):\n        return [self.v]\nclass B(A):\n    def __init__(self, v):\n        super().__init__(v + 1)\n    def m(self):\n        return super().m() + [0]\ndef f():\n    return B(1).m()",
     ]
     import tempfile, importlib.util
     out = []
